@@ -30,7 +30,9 @@ RULE = ("cases = (method, plan, dialogue cut, fault schedule, pre-existing forei
         "external command failing (k over the whole run, learnt from the fault-free run) -- once with a non-zero "
         "exit status and once by OSError EAGAIN/ENOENT raised at the subprocess boundary (the process cannot be "
         "spawned) --, with foreign chains/"
-        "rules and a second instance on another port present before or arriving during the session; plus signal "
+        "rules (some carrying non-ASCII UTF-8 comments, which every `-nL` listing read by ipt_chain_exists then shows) "
+        "and a second instance on another port present before or arriving during the session, also combined with "
+        "tear-down faults; plus signal "
         "sequences (SIGHUP/SIGPIPE/SIGINT/SIGTERM, repeated) delivered to a real helper process after STARTED "
         "before the control channel closes; a case is "
         "non-trivial when at least one firewall command was issued; distinct = distinct (method, dialogue, "
